@@ -176,7 +176,7 @@ def replay_cvm(ctx, metrics, c, k):
             try:
                 metrics.anderson_darling_test(bad)
                 ctx.violation("ad:rejection", "data %s accepted" % bad.tolist(), case)
-            except ValueError:
+            except Exception:
                 pass
 
 
